@@ -278,13 +278,14 @@ reg(
     "level subsets x spellings x scoped expressions of one modified item, compared with a reference flattener (outer wins)",
     "One modified item (a parameter value; start, min, max, nominal, fixed, unit) 1-2 (thorough 1-3) component levels "
     "deep, with every subset of <= 3 (thorough: all; <= 4 at depth 3) of the levels that can modify it -- type definition, "
-    "declaration, enclosing components of the declaring hierarchy, extends clause, enclosing component, the component "
-    "above it -- each present level carrying a value that identifies it; the expression of one level (or none) is a name "
+    "declaration, enclosing components of the declaring hierarchy, an inner and an outer extends clause (two-level extends "
+    "chain), enclosing component, the component above it -- each present level carrying a value that identifies it; the expression of one level (or none) is a name "
     "q that exists with a different value in every class, so the scope of resolution shows; every dot / parenthesis "
     "spelling of the links of one level (thorough: two levels) with the others in a.x(start = v) style. A program is "
     "either rejected by pymoca or its flat model equals the reference (winner = outermost level, expression resolved "
     "where written) in every variable, attribute and equation; accepted members of a spelling group must agree.",
-    "Rejection (any exception) is accepted for every spelling, as the statement allows; redeclare, each, array-valued "
+    "Rejection (any exception) is accepted for every spelling, as the statement allows; a variant names the class of the "
+    "modified component like the class that contains it (scopes must be told apart by class, not by short name); redeclare, each, array-valued "
     "and final modifications are outside the alphabet.",
 )
 
